@@ -94,7 +94,7 @@ CLAIMED.update({
                      "quota + throttled requests written-and-unanswered <= limit, no uint16 wrap, and after do_write no sendable request is left idle. Tied by lock-step of the real async_sender on a mock service (every output compared). End to end (composed_receive_maximum_respected): after every prefix the number of QoS>0 PUBLISH in flight on the connection (read off the events alone) is at most its Receive Maximum. Composed model (DESIGN.md S.8): the end-to-end statement is ALSO a Lean theorem about every event list accepted by a labelled transition system of the client above the stream (Model/Trace.lean / TraceIn.lean / TraceContent.lean); the real client is tied to it by trace inclusion: every H-client transcript is replayed through the compiled model on every run (lib/trace_check.py), a refusal is a broken correspondence.",
                 note=COMMON_NOTE + CLIENT_NOTE + "Hypothesis of the history theorem: terminal requests are never throttled (true of every call site).", technique="Lean 4 invariant by induction over sender histories + lock-step differential; in-flight monitor on the real client + composed observer model with end-to-end theorems, tied by trace inclusion of real-client transcripts", design="§5 C07", engine="h_sender,h_client"),
     "C09": dict(text="Proof (sender core): with the stream free and a terminal request queued, do_write writes exactly that request alone, ahead of everything queued; nothing is written while a write is in progress and the terminal request is next after it; a batch never mixes a terminal request with others. "
-                     "The 5 s bound, abort of the other operations and silence afterwards are searched by the C09 monitor on the real client (virtual time). Known finding F21. End to end (composed_no_success_after_cancel, composed_disconnect_first_in_write, composed_nothing_after_disconnect_in_write, composed_silence_after_disconnect): after a finished async_disconnect no publish/subscribe/unsubscribe completes successfully until async_run(); a DISCONNECT is alone in its write and nothing is written on the connection after it (Model/TraceDisc.lean on the write-level projection of every transcript). Composed model (DESIGN.md S.8): the end-to-end statement is ALSO a Lean theorem about every event list accepted by a labelled transition system of the client above the stream (Model/Trace.lean / TraceIn.lean / TraceContent.lean); the real client is tied to it by trace inclusion: every H-client transcript is replayed through the compiled model on every run (lib/trace_check.py), a refusal is a broken correspondence.",
+                     "The 5 s bound, abort of the other operations and silence afterwards are searched by the C09 monitor on the real client (virtual time). Known finding F21. The 5 s bound is also a theorem of a timed composed model (Model/TraceDiscT.lean, limit translated from disconnect_op: the clock never moves on from a moment at or past the limit while the operation is in progress), tied by replaying the timed projection of every transcript. End to end (composed_no_success_after_cancel, composed_disconnect_first_in_write, composed_nothing_after_disconnect_in_write, composed_silence_after_disconnect): after a finished async_disconnect no publish/subscribe/unsubscribe completes successfully until async_run(); a DISCONNECT is alone in its write and nothing is written on the connection after it (Model/TraceDisc.lean on the write-level projection of every transcript). Composed model (DESIGN.md S.8): the end-to-end statement is ALSO a Lean theorem about every event list accepted by a labelled transition system of the client above the stream (Model/Trace.lean / TraceIn.lean / TraceContent.lean); the real client is tied to it by trace inclusion: every H-client transcript is replayed through the compiled model on every run (lib/trace_check.py), a refusal is a broken correspondence.",
                 note=COMMON_NOTE + CLIENT_NOTE, technique="Lean 4 theorems on do_write + lock-step; disconnect monitor on the real client under virtual time + composed observer model with end-to-end theorems, tied by trace inclusion of real-client transcripts", design="§5 C09", engine="h_sender,h_client"),
     "C12": dict(text="Proof (timing rules): the expressions compute_read_timeout, ping compute_wait_time and negotiated_keep_alive are translated from the source on every run; theorems: read time-out = 1500*K ms, ping period = K s, K = 0 => neither, negotiated = Server Keep Alive or configured. "
                      "End to end (composed keep-alive model Model/TraceKA.lean: ping_op's timer, the sender's handling of the PINGREQ and the time-out of every read over a virtual clock, built on the translated expressions): at every moment the execution context has run dry on a running client with keep-alive K > 0, less than K s have passed since the timer was last armed (async_run, session refresh, end of the previous PINGREQ's write) or a write is in progress; keep-alive 0 => no PINGREQ in any accepted history; every read carries 1.5*K; tie: every timed transcript of the real client must be accepted by the model. The expiry itself (Model/TraceRd.lean, the timed read of the real stream layer): the read timer gives a connection up only when a read with a limit is in progress and at least the limit has passed since it began (never earlier, never for keep-alive 0), and no pending read outlives its limit; tie: every timed H-stream transcript accepted, limits probed at the millisecond. "
